@@ -244,6 +244,69 @@ fn gen_history(r: &mut Rng, big: bool) -> Vec<String> {
     ops
 }
 
+/// multi-boot history around a TORN flush: remove a set of ids and flush (tombstones persisted, blobs purged); re-insert
+/// them; the next flush is cut at a chosen write (every position is generated, the one after the ids PUT and before the
+/// metadata PUT included); load; idempotent re-index (`AlreadyExists` tolerated, so stale tombstones of live ids stay);
+/// ordinary flush + purge; second load; queries by the current vectors
+fn gen_torn(r: &mut Rng) -> Vec<String> {
+    let mut cfg = pick_cfg(r);
+    cfg.dim = r.range(2, 10) as usize;
+    let mut ops = vec![cfg.line()];
+    let kind = r.below(4);
+    let n = r.range(3, 14) as u64;
+    let mut stored: BTreeMap<u64, Vec<f32>> = BTreeMap::new();
+    for id in 0..n {
+        let v = gen_vec(r, cfg.dim, kind);
+        ops.push(format!("ins {id} {}", hex_bf16(&v)));
+        stored.insert(id, v);
+    }
+    ops.push("flush".into());
+    for round in 0..r.range(1, 3) {
+        let victims: Vec<u64> = stored.keys().copied().filter(|_| r.chance(1, 2)).collect();
+        for id in &victims {
+            ops.push(format!("rm {id}"));
+        }
+        if r.chance(4, 5) {
+            ops.push("flush".into());
+        }
+        for id in &victims {
+            // mostly the same vector again (the idempotent path), sometimes another one
+            let v = if r.chance(2, 3) { stored[id].clone() } else { gen_vec(r, cfg.dim, kind) };
+            ops.push(format!("ins {id} {}", hex_bf16(&v)));
+            stored.insert(*id, v);
+        }
+        if r.chance(1, 4) {
+            let id = n + round as u64;
+            let v = gen_vec(r, cfg.dim, kind);
+            ops.push(format!("ins {id} {}", hex_bf16(&v)));
+            stored.insert(id, v);
+        }
+        // cut position: uniformly over the writes of that flush (dirty nodes ≈ victims and their neighbours, + ids + metadata)
+        let cut = r.below(victims.len() as u64 * 2 + 5);
+        ops.push(match r.below(6) {
+            0 => format!("crashl {cut} -"),
+            1 => format!("crashw {cut} -"),
+            _ => format!("crash {cut}"),
+        });
+        if r.chance(1, 3) {
+            ops.push(gen_query(r, &cfg, &stored, kind));
+        }
+        ops.push(if r.chance(4, 5) { "reindexi".into() } else { "reindex".into() });
+        ops.push(gen_query(r, &cfg, &stored, kind));
+        ops.push("flush".into());
+        ops.push("reload".into());
+        for _ in 0..r.range(1, 3) {
+            ops.push(gen_query(r, &cfg, &stored, kind));
+        }
+        if r.chance(1, 2) {
+            // and once more without any mutation in between
+            ops.push("flush".into());
+            ops.push("reload".into());
+        }
+    }
+    ops
+}
+
 /// explicit, possibly malformed graph loaded through `load_all`: dangling edges, self loops,
 /// duplicate edges, asymmetric edges, edges on layers the target does not have, entry point with a
 /// wrong layer tag or dangling, ids without blobs
@@ -418,6 +481,10 @@ fn main() {
         }
         for _ in 0..(if cfg!(feature = "wrapper") { args.budget(300, 7000) } else { 0 }) {
             cases.push((format!("wrap{i}"), gen_wrapper(&mut Rng::for_case(args.seed, i))));
+            i += 1;
+        }
+        for _ in 0..args.budget(500, 15000) {
+            cases.push((format!("torn{i}"), gen_torn(&mut Rng::for_case(args.seed, i))));
             i += 1;
         }
         for _ in 0..n_graph {
